@@ -1,5 +1,7 @@
 #![allow(dead_code)]
 use parity_scale_codec::{Compact, Decode, Encode};
-#[derive(parity_scale_codec::CompactAs)]
-pub struct T { a: u32, #[codec(skip)] b: u8 }
+#[derive(Encode, Decode)]
+pub enum T {
+	#[codec(index = 255)] V0(u8),
+}
 fn main() {}
